@@ -603,6 +603,9 @@ class FixedKeyDictNode(MappingNode, SequenceNode[Dict[LeafNode, KeyValuePairNode
             )
         })
 
+    def copy_from(self: T, children: Iterable[KeyValuePairNode]) -> T:
+        return self.__class__({kvp.key: kvp for kvp in children})
+
     def __getitem__(self, item: LeafNode):
         return self._children[item]
 
